@@ -9,11 +9,12 @@ fake address) and — for the randomized strategy — every index stream.
 
 Hypotheses (exactly those the proofs use):
 * `Distinct pool` — the inputs of the pool are pairwise distinct (what a UTxO set is);
-* `PoolOK pool` — every amount is a legal dict (unique keys: true of every Python dict) holding no negative
-  quantity.  Without it coverage is false of the code: `Value.__le__` is key-directed (KF-C05-le-negative), so a
-  pool entry carrying −5 of a token the request does not mention is selected although the selection then
-  "covers" 0 with −5; the ledger admits no such entry;
-* `OutsWF outputs` — the requested amounts are legal dicts.
+* `PoolWF pool` — every amount is a legal dict (unique keys: true of every Python dict);
+* `OutsWF outputs` — the requested amounts are legal dicts;
+* for coverage only, `PoolOK pool` — `PoolWF` and no negative quantity in the pool.  Without it coverage is false
+  of the code: `Value.__le__` is key-directed (KF-C05-le-negative), so a pool entry carrying −5 of a token the
+  request does not mention is selected (reproduced on /repo: `select` returns it with a change holding −5) although
+  the selection then "covers" 0 with −5; the ledger admits no such entry.
 
 Pool immutability is not a theorem: the model is pure (`pool` is an argument, never returned or rebound), and the
 implementation's working copies (`sorted(utxos)`, `list(utxos)`) are checked by byte snapshot in the harness. -/
@@ -22,6 +23,7 @@ namespace Pyc.C14
 open Pyc Pyc.CoinSel
 
 def Distinct (pool : List UTxO) : Prop := (pool.map UTxO.ref).Nodup
+def PoolWF (pool : List UTxO) : Prop := ∀ u ∈ pool, Value.WF u.amount
 def OutsWF (outputs : List Output) : Prop := ∀ o ∈ outputs, Value.WF o.amount
 
 /-- requested ADA: the fee in force plus the outputs -/
@@ -32,15 +34,20 @@ def reqQty (outputs : List Output) (p n : Bytes) : Int := (outputs.map (fun o =>
 def heldCoin (l : List UTxO) : Int := sumBy coinOf l
 def heldQty (l : List UTxO) (p n : Bytes) : Int := sumBy (qtyOf p n) l
 
-private theorem good_unfold {pool : List UTxO} {outputs : List Output} (ho : OutsWF outputs) {f : Int}
-    {sel : List UTxO} {change : Value} (g : Good pool (requestSum f outputs) sel change) :
-    (reqCoin f outputs ≤ heldCoin sel ∧ ∀ p n, reqQty outputs p n ≤ heldQty sel p n) ∧
-    (change.coin = heldCoin sel - reqCoin f outputs ∧
-      ∀ p n, Value.qty change p n = heldQty sel p n - reqQty outputs p n) := by
+private theorem good_covers {pool : List UTxO} {outputs : List Output} (ho : OutsWF outputs) {f : Int}
+    {sel : List UTxO} {change : Value} (g : Good True pool (requestSum f outputs) sel change) :
+    reqCoin f outputs ≤ heldCoin sel ∧ ∀ p n, reqQty outputs p n ≤ heldQty sel p n := by
   have hs := requestSum_spec f outputs ho
-  refine ⟨⟨?_, fun p n => ?_⟩, ?_, fun p n => ?_⟩
-  · have := g.coverCoin; rw [hs.2.2.1] at this; exact this
-  · have := g.coverQty p n; rw [hs.2.2.2] at this; exact this
+  refine ⟨?_, fun p n => ?_⟩
+  · have := g.coverCoin trivial; rw [hs.2.2.1] at this; exact this
+  · have := g.coverQty trivial p n; rw [hs.2.2.2] at this; exact this
+
+private theorem good_change {nn : Prop} {pool : List UTxO} {outputs : List Output} (ho : OutsWF outputs) {f : Int}
+    {sel : List UTxO} {change : Value} (g : Good nn pool (requestSum f outputs) sel change) :
+    change.coin = heldCoin sel - reqCoin f outputs ∧
+      ∀ p n, Value.qty change p n = heldQty sel p n - reqQty outputs p n := by
+  have hs := requestSum_spec f outputs ho
+  refine ⟨?_, fun p n => ?_⟩
   · have := g.changeCoin; rw [hs.2.2.1] at this; exact this
   · have := g.changeQty p n; rw [hs.2.2.2] at this; exact this
 
@@ -49,10 +56,10 @@ private theorem good_unfold {pool : List UTxO} {outputs : List Output} (ho : Out
 /-- the selected inputs are pairwise distinct entries of the pool (a sub-multiset of it) -/
 theorem lf_subset (env : Env) (pool : List UTxO) (outputs : List Output) (limit : Option Int)
     (includeFee respectMin : Bool) (sel : List UTxO) (change : Value)
-    (hd : Distinct pool) (hp : PoolOK pool) (ho : OutsWF outputs)
+    (hd : Distinct pool) (hp : PoolWF pool) (ho : OutsWF outputs)
     (h : lfSelect env pool outputs limit includeFee respectMin = .ok (sel, change)) :
     (sel.map UTxO.ref).Nodup ∧ (∀ u ∈ sel, u ∈ pool) ∧ ∃ rest, (sel ++ rest).Perm pool := by
-  obtain ⟨f, _, g⟩ := lfSelect_ok hp hd env outputs ho limit includeFee respectMin sel change h
+  obtain ⟨f, _, g⟩ := lfSelect_ok (PoolN.ofWF hp) hd env outputs ho limit includeFee respectMin sel change h
   exact ⟨g.nodup, g.sub, subperm_of_nodup_subset sel pool (nodup_of_map _ _ g.nodup) g.sub⟩
 
 /-- request (plus the maximum fee when asked) ≤ Σ selected, in ADA and in every asset -/
@@ -62,18 +69,18 @@ theorem lf_covers (env : Env) (pool : List UTxO) (outputs : List Output) (limit 
     (h : lfSelect env pool outputs limit includeFee respectMin = .ok (sel, change)) :
     ∃ fee, feeOf env includeFee = some fee ∧ reqCoin fee outputs ≤ heldCoin sel ∧
       ∀ p n, reqQty outputs p n ≤ heldQty sel p n := by
-  obtain ⟨f, hf, g⟩ := lfSelect_ok hp hd env outputs ho limit includeFee respectMin sel change h
-  exact ⟨f, hf, (good_unfold ho g).1⟩
+  obtain ⟨f, hf, g⟩ := lfSelect_ok (PoolN.ofOK hp) hd env outputs ho limit includeFee respectMin sel change h
+  exact ⟨f, hf, good_covers ho g⟩
 
 /-- change = Σ selected − request, in ADA and in every asset -/
 theorem lf_change (env : Env) (pool : List UTxO) (outputs : List Output) (limit : Option Int)
     (includeFee respectMin : Bool) (sel : List UTxO) (change : Value)
-    (hd : Distinct pool) (hp : PoolOK pool) (ho : OutsWF outputs)
+    (hd : Distinct pool) (hp : PoolWF pool) (ho : OutsWF outputs)
     (h : lfSelect env pool outputs limit includeFee respectMin = .ok (sel, change)) :
     ∃ fee, feeOf env includeFee = some fee ∧ change.coin = heldCoin sel - reqCoin fee outputs ∧
       ∀ p n, Value.qty change p n = heldQty sel p n - reqQty outputs p n := by
-  obtain ⟨f, hf, g⟩ := lfSelect_ok hp hd env outputs ho limit includeFee respectMin sel change h
-  exact ⟨f, hf, (good_unfold ho g).2⟩
+  obtain ⟨f, hf, g⟩ := lfSelect_ok (PoolN.ofWF hp) hd env outputs ho limit includeFee respectMin sel change h
+  exact ⟨f, hf, good_change ho g⟩
 
 /-- GOAL: never more inputs than the stated limit. -/
 def lf_limit_goal : Prop :=
@@ -127,7 +134,7 @@ theorem lf_limit_counterexample : ¬ lf_limit_goal := by
 /-- when largest-first reports an insufficient balance, the pool does not cover the request (plus fee) — or, in
 min-change mode, the pool's ADA is below request + the minimum change of the first-phase selection -/
 theorem lf_insufficient_genuine (env : Env) (pool : List UTxO) (outputs : List Output) (limit : Option Int)
-    (includeFee respectMin : Bool) (hd : Distinct pool) (hw : ∀ u ∈ pool, Value.WF u.amount)
+    (includeFee respectMin : Bool) (hd : Distinct pool) (hw : PoolWF pool)
     (ho : ∀ o ∈ outputs, Value.WF o.amount ∧ ∀ p n, 0 ≤ Value.qty o.amount p n)
     (h : lfSelect env pool outputs limit includeFee respectMin = .error .insufficient) :
     ∃ fee, feeOf env includeFee = some fee ∧
@@ -158,10 +165,10 @@ example : selLen (lfSelect wEnv [wUtxo 1 ⟨3000000, []⟩, wUtxo 2 ⟨500000, [
 /-- the selected inputs are pairwise distinct entries of the pool (a sub-multiset of it) -/
 theorem ri_subset (env : Env) (pool : List UTxO) (outputs : List Output) (limit : Option Int)
     (includeFee respectMin : Bool) (stream : List Nat) (sel : List UTxO) (change : Value)
-    (hd : Distinct pool) (hp : PoolOK pool) (ho : OutsWF outputs)
+    (hd : Distinct pool) (hp : PoolWF pool) (ho : OutsWF outputs)
     (h : riSelect env pool outputs limit includeFee respectMin stream = .ok (sel, change)) :
     (sel.map UTxO.ref).Nodup ∧ (∀ u ∈ sel, u ∈ pool) ∧ ∃ rest, (sel ++ rest).Perm pool := by
-  obtain ⟨f, _, g⟩ := riSelect_ok hp hd env outputs ho limit includeFee respectMin stream sel change h
+  obtain ⟨f, _, g⟩ := riSelect_ok (PoolN.ofWF hp) hd env outputs ho limit includeFee respectMin stream sel change h
   exact ⟨g.nodup, g.sub, subperm_of_nodup_subset sel pool (nodup_of_map _ _ g.nodup) g.sub⟩
 
 /-- request (plus the maximum fee when asked) ≤ Σ selected, in ADA and in every asset -/
@@ -171,18 +178,18 @@ theorem ri_covers (env : Env) (pool : List UTxO) (outputs : List Output) (limit 
     (h : riSelect env pool outputs limit includeFee respectMin stream = .ok (sel, change)) :
     ∃ fee, feeOf env includeFee = some fee ∧ reqCoin fee outputs ≤ heldCoin sel ∧
       ∀ p n, reqQty outputs p n ≤ heldQty sel p n := by
-  obtain ⟨f, hf, g⟩ := riSelect_ok hp hd env outputs ho limit includeFee respectMin stream sel change h
-  exact ⟨f, hf, (good_unfold ho g).1⟩
+  obtain ⟨f, hf, g⟩ := riSelect_ok (PoolN.ofOK hp) hd env outputs ho limit includeFee respectMin stream sel change h
+  exact ⟨f, hf, good_covers ho g⟩
 
 /-- change = Σ selected − request, in ADA and in every asset -/
 theorem ri_change (env : Env) (pool : List UTxO) (outputs : List Output) (limit : Option Int)
     (includeFee respectMin : Bool) (stream : List Nat) (sel : List UTxO) (change : Value)
-    (hd : Distinct pool) (hp : PoolOK pool) (ho : OutsWF outputs)
+    (hd : Distinct pool) (hp : PoolWF pool) (ho : OutsWF outputs)
     (h : riSelect env pool outputs limit includeFee respectMin stream = .ok (sel, change)) :
     ∃ fee, feeOf env includeFee = some fee ∧ change.coin = heldCoin sel - reqCoin fee outputs ∧
       ∀ p n, Value.qty change p n = heldQty sel p n - reqQty outputs p n := by
-  obtain ⟨f, hf, g⟩ := riSelect_ok hp hd env outputs ho limit includeFee respectMin stream sel change h
-  exact ⟨f, hf, (good_unfold ho g).2⟩
+  obtain ⟨f, hf, g⟩ := riSelect_ok (PoolN.ofWF hp) hd env outputs ho limit includeFee respectMin stream sel change h
+  exact ⟨f, hf, good_change ho g⟩
 
 /-- `_random_select_subset`, `_improve` and the recursive top-up terminate: the recursion budgets the model gives
 them (`len(remaining) + 1`, one element leaves `remaining` per iteration / activation) are never exhausted -/
@@ -229,6 +236,22 @@ and a pool on which the top-up adds two inputs (limit + 2; the out-of-range inde
 example : selLen (riSelect wEnv wPool [wOut ⟨2900000, []⟩] (some 1) false true [0, 0, 0, 0]) = 2 ∧
     selLen (riSelect wEnv [wUtxo 1 ⟨3000000, []⟩, wUtxo 2 ⟨500000, []⟩, wUtxo 3 ⟨500000, []⟩]
       [wOut ⟨2900000, []⟩] (some 1) false true [0, 5, 0, 0]) = 3 := by decide +kernel
+
+/-! ## the non-negativity hypothesis of `lf_covers` / `ri_covers` is needed -/
+
+/-- quantity of asset `(p, n)` held by the inputs of a result -/
+def resultQty (r : Except SelErr (List UTxO × Value)) (p n : Bytes) : Option Int :=
+  match r with
+  | .ok (s, _) => some (heldQty s p n)
+  | .error _ => none
+
+/-- a pool entry carrying −5 of a token: both strategies return it for a request that does not mention the token
+(requested 0, held −5; the change holds −5 as well) — the same on /repo.  No ledger UTxO looks like this. -/
+example :
+    resultQty (lfSelect wEnv [wUtxo 1 ⟨3000000, [([7, 7], [([1], -5)])]⟩, wUtxo 2 ⟨2000000, []⟩]
+      [wOut ⟨2500000, []⟩] none false false) [7, 7] [1] = some (-5) ∧
+    resultQty (riSelect wEnv [wUtxo 1 ⟨3000000, [([7, 7], [([1], -5)])]⟩, wUtxo 2 ⟨2000000, []⟩]
+      [wOut ⟨2500000, []⟩] none false false [0, 0, 0]) [7, 7] [1] = some (-5) := by decide +kernel
 
 /-! ## non-vacuity -/
 
